@@ -197,6 +197,16 @@ func SameNumber(a, b []byte) bool {
 	return e1 == nil && e2 == nil && fa == fb
 }
 
+// ContainsBytes is bytes.Contains (forks per position under gosym only where needed).
+func ContainsBytes(b, sub []byte) bool {
+	for i := 0; i+len(sub) <= len(b); i++ {
+		if EqualBytes(b[i:i+len(sub)], sub) {
+			return true
+		}
+	}
+	return false
+}
+
 // EqualBytes is bytes.Equal (one conjunction term under gosym instead of a forking loop).
 func EqualBytes(a, b []byte) bool { return string(a) == string(b) }
 
